@@ -517,6 +517,12 @@ def expect(state, m):
                 err()
                 ok(st, {SNF: len(missing)} if missing else {}, {SNF: nbad} if nbad else {},
                    note='partial')
+                if nbad and ids:
+                    # a blank entry beside real ones: the library's Story(source, id=None) falls back to the
+                    # FIRST storyID of the list, so the blank entry is a repeated source to it - and for
+                    # repeated sources "unchanged, no report" is inside the latitude (Appendix A; blank
+                    # sources are outside the stated domain, C20 ASSUMPTIONS)
+                    ok(unchanged)
                 ex.classes.append('source-unresolved')
                 return ex
             if tt != 'id' and m.has_target_elem:
